@@ -1,0 +1,68 @@
+// SPDX-FileCopyrightText: 2026 The Pion community <https://pion.ly>
+// SPDX-License-Identifier: MIT
+
+//go:build verif
+
+package mux
+
+// Contracts for the contract-based verification in /verif (build tag verif); comments only.
+
+//@ func specDTLS
+//@ pure
+//@ nosafety
+//@ func specMedia
+//@ pure
+//@ nosafety
+//@ func specRTCPType
+//@ pure
+//@ nosafety
+//@ func specSRTCP
+//@ pure
+//@ nosafety
+//@ func specSRTP
+//@ pure
+//@ nosafety
+
+//@ func MatchRange
+//@ props C27
+//@ ensures result == (len(buf) >= 1 && buf[0] >= lower && buf[0] <= upper)
+//@ modifies nothing
+
+//@ func MatchDTLS
+//@ props C27
+//@ ensures result == specDTLS(len(b), b[0])
+//@ modifies nothing
+
+//@ func MatchSRTPOrSRTCP
+//@ props C27
+//@ ensures result == specMedia(len(b), b[0])
+//@ modifies nothing
+
+//@ func isRTCP
+//@ props C27
+//@ ensures result == specRTCPType(len(buf), buf[1])
+//@ modifies nothing
+
+//@ func MatchSRTP
+//@ props C27
+//@ ensures result == specSRTP(len(buf), buf[0], buf[1])
+//@ modifies nothing
+
+//@ func MatchSRTCP
+//@ props C27
+//@ ensures result == specSRTCP(len(buf), buf[0], buf[1])
+//@ modifies nothing
+
+// The property itself, over the spec functions the real functions are tied to:
+// the three classes are pairwise exclusive for every datagram, their union is
+// exactly the RFC 7983 first-byte ranges, and a datagram long enough to be RTCP
+// whose second byte is in 192..223 is SRTCP and never SRTP.
+//@ lemma demux_exclusive
+//@ props C27
+//@ vars n int, b0 byte, b1 byte
+//@ requires n >= 0
+//@ ensures !(specDTLS(n, b0) && specSRTP(n, b0, b1)) && !(specDTLS(n, b0) && specSRTCP(n, b0, b1)) && !(specSRTP(n, b0, b1) && specSRTCP(n, b0, b1))
+//@ ensures (specDTLS(n, b0) || specSRTP(n, b0, b1) || specSRTCP(n, b0, b1)) == (n >= 1 && ((b0 >= 20 && b0 <= 63) || (b0 >= 128 && b0 <= 191)))
+//@ ensures n >= 4 && b0 >= 128 && b0 <= 191 ==> (specSRTCP(n, b0, b1) == (b1 >= 192 && b1 <= 223))
+//@ ensures n >= 1 && b0 >= 128 && b0 <= 191 ==> (specSRTP(n, b0, b1) == !(n >= 4 && b1 >= 192 && b1 <= 223))
+//@ ensures n >= 1 ==> (specDTLS(n, b0) == (b0 >= 20 && b0 <= 63))
